@@ -97,10 +97,15 @@ type c10Base struct {
 	N     int   `json:"n"`   // cycles to run
 	Halt  bool  `json:"halt"`
 	Start uint8 `json:"s"`
+	// Cart: 0 = type 10 (MBC3+TIMER+RAM+BATTERY, 8 KiB RAM x 4); 1 = type 0F (MBC3+TIMER+BATTERY, no RAM);
+	// 2 = type 10 with 128 ROM pages and no RAM: the clock belongs to every cartridge that carries a timer
+	Cart int `json:"cart,omitempty"`
 }
 
+var c10Carts = []cartSpec{c10Cart, {0x0f, 1, 0}, {0x10, 6, 0}}
+
 func c10TimeBase(l *explore.Local, _ struct{}, c c10Base) *explore.Fail {
-	p := newCartPair(c10Cart)
+	p := newCartPair(c10Carts[c.Cart])
 	if c.Sub >= 0 {
 		st := memory.VRTC{S: c.Start, M: 59, H: 23, D: 0x1ff, Ticks: c.Sub, Halt: c.Halt}
 		p.m.Map.VRTCSet(st)
@@ -269,7 +274,7 @@ func init() {
 					}
 				}
 			}, func() *cartPair { return newCartPair(c10Cart) }, c10Carry)
-		explore.Product(c.R, "time-base", explore.PartOpt{Bound: "0-40 cycles from each preset; 2 x 1,048,576 cycles un-hooked", Domain: "sub-second presets {0..16} and {2^20-17..2^20-1}, halted/running, seconds 58/59/63"},
+		explore.Product(c.R, "time-base", explore.PartOpt{Bound: "0-40 cycles from each preset; 2 x 1,048,576 cycles un-hooked", Domain: "sub-second presets {0..16} and {2^20-17..2^20-1}, halted/running, seconds 58/59/63; the boundary presets and the long run again on cartridge type 0F (timer, no RAM) and on type 10 with 128 ROM pages and no RAM"},
 			func(yield func(c10Base) bool) {
 				for _, halt := range []bool{false, true} {
 					for _, s := range []uint8{58, 59, 63} {
@@ -286,6 +291,18 @@ func init() {
 					}
 				}
 				yield(c10Base{Sub: -1, N: 2*ref.CyclesPerSecond + 8})
+				for cart := 1; cart < len(c10Carts); cart++ {
+					for _, halt := range []bool{false, true} {
+						for _, sub := range []int{0, ref.CyclesPerSecond - 2, ref.CyclesPerSecond - 1} {
+							if !yield(c10Base{Sub: sub, N: 40, Halt: halt, Start: 59, Cart: cart}) {
+								return
+							}
+						}
+					}
+					if !yield(c10Base{Sub: -1, N: 2*ref.CyclesPerSecond + 8, Cart: cart}) {
+						return
+					}
+				}
 			}, func() struct{} { return struct{}{} }, c10TimeBase)
 		depth := 4
 		if c.Thorough() {
